@@ -148,6 +148,26 @@ Proof.
   split; [exact H1|]. split; [exact H2|]. exact (valid_reader_sound LT RT AT ls f Hr).
 Qed.
 
+(* what is physically present in the written text of a reader-produced tree is what the tree holds:
+   C02_physical_counts (Props/C02Counts.v) applies, its shape hypothesis is a consequence of the reading *)
+Theorem c02_reader_physical_counts text f clk :
+  read_text_valid LT RT AT text = Some (f, false) -> wf_utf8 clk = true -> rune_count clk = 4 ->
+  let g := stamp clk f in
+  adv_only g = true ->
+  let ls := write_file_padded LT g in
+  batch_header_lines ls = length (all_batches g)
+  /\ entry_addenda_lines ls = list_sum (map tree_count (all_batches g))
+  /\ length (write_file LT g) = 2 + list_sum (map (fun b => 2 + tree_count b) (all_batches g))
+  /\ block_lines ls = blocks_of (length (write_file LT g))
+  /\ 10 * block_lines ls = length ls
+  /\ map (fun s => (entry_addenda_lines (fst s), snd s)) (batch_segments ls)
+     = map (fun b => (tree_count b, render_rec LT (bt_ctl b))) (all_batches g).
+Proof.
+  intros Hr Hc Hc4. cbv zeta. intros Hadv.
+  destruct (c02_reader_domain text f clk Hr Hc Hc4) as (_ & _ & _ & _ & Hshape).
+  exact (physical_tree LT (stamp clk f) Hshape Hadv).
+Qed.
+
 (* ------------------------------------------------------------------ *)
 (* 3. examples                                                          *)
 
@@ -176,6 +196,9 @@ Definition tree_of (text : bytes) : fileR :=
 Lemma ex_text_accepted : read_text_valid LT RT AT ex_text = Some (tree_of ex_text, false)
   /\ all_file has_time (tree_of ex_text) = true /\ length ex_lines = 20.
 Proof. vm_compute. repeat split; reflexivity. Qed.
+
+Lemma ex_text_adv_only : adv_only (stamp (bstr "0815") (tree_of ex_text)) = true.
+Proof. vm_compute. reflexivity. Qed.
 
 (* the theorem applied: every hypothesis met by a concrete input *)
 Lemma ex_text_domain : Forall line_ok94 (write_file_padded LT (tree_of ex_text)) /\ grammar_ok (write_file_padded LT (tree_of ex_text)) = true.
